@@ -2,7 +2,7 @@
 
 A case is a little heap of source objects (records, lists of inner records, inner records; each a tuple, a list or a
 numpy record), a stream of record values, the clauses on columns of nested sequences (each becomes a `recurse` map at
-the front of `imap`), optionally a child selection, and a number of type lookups before the iteration.
+the front of `imap`), optionally a child selection, and a number of type lookups before the iteration; clauses on OUTER columns add level-0 filters (read only) and identity maps.
 
 Model side: `rh-serve` / `rh-map` of lean/Driver/RowHeap.lean (PydapModel/RowHeap.lean; theorems C13_nested_filter_copy,
 C13_rows_frame, C13_rows_noninterference).  Implementation side: the real `IterData`, `build_filter`, `fix_nested`
@@ -100,8 +100,14 @@ def gen_case(rng, errors=True):
         if rng.random() < 0.1:
             stream.append(stream[-1])                                    # the same record object twice in the stream
     seqs = [j for j, k in enumerate(hdr) if k is not None]
+    bases = [j for j, k in enumerate(hdr) if k is None]
     clauses = []
     for _ in range(rng.choice([1, 1, 1, 2, 3])):
+        if bases and rng.random() < 0.3:
+            # a clause on an outer column: a level-0 filter (the operand may be the nested child: list against number)
+            rhs = ["lit", rng.choice([0, 2, 4, 5, 7])] if rng.random() < 0.7 else ["col", rng.randrange(nchild)]
+            clauses.append(["outer", rng.choice(bases), rng.choice(list(OPS)), rhs])
+            continue
         j = rng.choice(seqs)
         icol = rng.randrange(hdr[j])
         rhs = ["lit", rng.choice([0, 2, 4, 5, 7])] if rng.random() < 0.75 else ["col", rng.randrange(hdr[j])]
@@ -114,11 +120,14 @@ def gen_case(rng, errors=True):
 def model_lines(case):
     src = "(" + " ".join("(" + " ".join(str(x) for x in o) + ")" for o in case["src"]) + ")"
     stream = "(" + " ".join(str(v) for v in case["stream"]) + ")"
-    maps = ["(nest %d %d %s (%s %d))" % (j, ic, op, rhs[0], rhs[1]) for j, ic, op, rhs in reversed(case["clauses"])]
+    maps = ["(ident)" if j == "outer" else "(nest %d %d %s (%s %d))" % (j, ic, op, rhs[0], rhs[1])
+            for j, ic, op, rhs in reversed(case["clauses"])]
+    filts = ["(cmp %d %s (%s %d))" % (ic, op, rhs[0], rhs[1]) if j == "outer" else "(truthy)"
+             for j, ic, op, rhs in case["clauses"]]
     maps.append("(fix %s)" % " ".join("1" if k is not None else "0" for k in case["hdr"]))
     if case["select"] is not None:
         maps.append("(item %d)" % case["select"])
-    return "rh-serve %s %s (%s) 1 %d" % (src, stream, " ".join(maps), case["peeks"])
+    return "rh-serve %s %s (%s) (%s) %d" % (src, stream, " ".join(filts), " ".join(maps), case["peeks"])
 
 
 # ---- the implementation on real objects -----------------------------------------------------------------------------
@@ -193,6 +202,10 @@ def run_impl(case):
     try:
         it = IterData(stream, template)
         for j, ic, op, rhs in case["clauses"]:
+            if j == "outer":
+                right = str(rhs[1]) if rhs[0] == "lit" else "s.c%d" % rhs[1]
+                it = it[ConstraintExpression("s.c%d%s%s" % (ic, OPS[op], right))]
+                continue
             right = str(rhs[1]) if rhs[0] == "lit" else "s.c%d.i%d" % (j, rhs[1])
             it = it[ConstraintExpression("s.c%d.i%d%s%s" % (j, ic, OPS[op], right))]
         if case["select"] is not None:
@@ -210,6 +223,7 @@ def run_impl(case):
                 raise
         return g
     it.imap = [guard(m) for m in it.imap]
+    it.ifilter = [guard(f) for f in it.ifilter]
     for _ in range(case["peeks"]):
         try:
             it.dtype
